@@ -1,0 +1,81 @@
+//go:build verif
+// +build verif
+
+// Contracts for the deductive verifier in /verif (govc). Comment-only: no executable code.
+package v1alpha1
+
+//@ func (matcher).match props C01
+//@   pure
+//@   ensures [def] result == mmatch(m, request)
+
+//@ func filterRules props C01
+//@   pure
+//@   ensures [star] matchAll == has(rules, "*")
+//@   ensures [pos_sound] !matchAll && anyPos(rules) ==> forall x matcher :: {has(filtered, x)} has(filtered, x) ==> !x.reverse && !isNeg(x.value) && has(rules, x.value)
+//@   ensures [pos_complete] !matchAll && anyPos(rules) ==> forall j int :: {rules[j]} 0 <= j && j < len(rules) && !isNeg(rules[j]) ==> has(filtered, mk("matcher", false, rules[j]))
+//@   ensures [neg_sound] !matchAll && !anyPos(rules) ==> forall x matcher :: {has(filtered, x)} has(filtered, x) ==> x.reverse && has(rules, "-" + x.value)
+//@   ensures [neg_complete] !matchAll && !anyPos(rules) ==> forall j int :: {rules[j]} 0 <= j && j < len(rules) ==> has(filtered, mk("matcher", true, strip(rules[j])))
+//@   loop 0: invariant [bounds] 0 <= idx && idx <= len(rules)
+//@   loop 0: invariant [nostar] !matchAll && !has(take(rules, idx), "*")
+//@   loop 0: invariant [fsound] forall x matcher :: {has(filtered, x)} has(filtered, x) ==> !x.reverse && !isNeg(x.value) && has(take(rules, idx), x.value)
+//@   loop 0: invariant [fcomplete] forall j int :: {rules[j]} 0 <= j && j < idx && !isNeg(rules[j]) ==> has(filtered, mk("matcher", false, rules[j]))
+//@   loop 0: invariant [rsound] forall x matcher :: {has(reversed, x)} has(reversed, x) ==> x.reverse && has(take(rules, idx), "-" + x.value)   using bounds
+//@   loop 0: invariant [rcomplete] forall j int :: {rules[j]} 0 <= j && j < idx && isNeg(rules[j]) ==> has(reversed, mk("matcher", true, strip(rules[j])))
+//@   loop 0: invariant [fempty] len(filtered) == 0 ==> forall j int :: {rules[j]} 0 <= j && j < idx ==> isNeg(rules[j])
+
+//@ func simpleMatches props C01
+//@   pure
+//@   ensures [star] has(rules, "*") ==> result
+//@   ensures [empty] len(rules) == 0 ==> !result
+//@   ensures [positive] !has(rules, "*") && anyPos(rules) ==> (result <==> exists j int :: {rules[j]} 0 <= j && j < len(rules) && !isNeg(rules[j]) && entryM(rules[j], requests, matchFn))
+//@   ensures [inverted] !has(rules, "*") && !anyPos(rules) && len(rules) > 0 ==> (result <==> !exists j int :: {rules[j]} 0 <= j && j < len(rules) && entryM(strip(rules[j]), requests, matchFn))
+//@   loop 0: invariant [bounds] 0 <= idx && idx <= len(filtered)
+//@   loop 0: invariant [none] forall k int :: {filtered[k]} 0 <= k && k < idx ==> !anyReq(mk("matcher", false, filtered[k].value), requests) && !anyFn(matchFn, mk("matcher", false, filtered[k].value))
+//@   loop 1: invariant [bounds] 0 <= idx && idx <= len(requests)
+//@   loop 1: invariant [none] forall r int :: {requests[r]} 0 <= r && r < idx ==> !mmatch(positive, requests[r])
+//@   loop 2: invariant [bounds] 0 <= idx && idx <= len(matchFn)
+//@   loop 2: invariant [none] forall q int :: {matchFn[q]} 0 <= q && q < idx ==> !app(matchFn[q], positive)
+//@   loop 3: invariant [bounds] 0 <= idx && idx <= len(filtered)
+//@   loop 3: invariant [none] forall k int :: {filtered[k]} 0 <= k && k < idx ==> !anyReq(filtered[k], requests) && !anyFn(matchFn, filtered[k])
+//@   loop 4: invariant [bounds] 0 <= idx && idx <= len(requests)
+//@   loop 4: invariant [none] forall r int :: {requests[r]} 0 <= r && r < idx ==> !mmatch(v, requests[r])
+//@   loop 5: invariant [bounds] 0 <= idx && idx <= len(matchFn)
+//@   loop 5: invariant [none] forall q int :: {matchFn[q]} 0 <= q && q < idx ==> !app(matchFn[q], v)
+
+//@ func VerbMatches props C01
+//@   pure
+//@   ensures [spec] result == listMatch1(verbs, request)
+
+//@ func APIGroupMatches props C01
+//@   pure
+//@   ensures [spec] result == listMatch1(apiGroups, request)
+
+//@ func ResourceMatches$1 props C01
+//@   pure-def !(len(requestedSubresource) == 0) && hasPrefix(m.value, "*/") && ((!m.reverse && m.value == "*/" + requestedSubresource) || (m.reverse && m.value != "*/" + requestedSubresource))
+
+//@ func ResourceMatches props C01
+//@   pure
+//@   ensures [spec] result == resSpec(resources, combinedRequestedResource, requestedSubresource)
+
+//@ func ResourceNameMatches props C01
+//@   pure
+//@   ensures [spec] result == nameSpec(resourceNames, request)
+
+//@ func UserOrServiceAccountMatches$1 props C01
+//@   pure-def hasSuffix(m.value, "*") && hasPrefix(requestUser, trimRight(m.value, "*"))
+
+//@ func UserOrServiceAccountMatches props C01
+//@   pure
+//@   ensures [spec] result == userSpec(users, serviceAccounts, requestUser)
+//@   loop 0: invariant [bounds] 0 <= idx && idx <= len(serviceAccounts)
+//@   loop 0: invariant [none] forall k int :: {serviceAccounts[k]} 0 <= k && k < idx ==> !(len(serviceAccounts[k].Namespace) > 0 && len(serviceAccounts[k].Name) > 0 && "system:serviceaccount:" + serviceAccounts[k].Namespace + ":" + serviceAccounts[k].Name == requestUser)
+
+//@ func UserGroupMatches props C01
+//@   pure
+//@   ensures [spec] result == groupSpec(userGroups, requestGroups)
+
+//@ func NonResourceURLMatches props C01
+//@   pure
+//@   ensures [spec] result == urlSpec(nonResourceURLs, request)
+//@   loop 0: invariant [bounds] 0 <= idx && idx <= len(filtered)
+//@   loop 0: invariant [none] forall k int :: {filtered[k]} 0 <= k && k < idx ==> filtered[k].reverse || !globEntry(filtered[k].value, request)
